@@ -33,11 +33,20 @@ def _line_col(target, cls, mk_self, mk_args, result_items):
         seq = lines_axioms(c, text.t)
         self = mk_self(c, index)
         c.call(*mk_args(text, index), self_val=self)
+        # the loop state is found by ROLE in the current source, not by name: the accumulator is the
+        # variable the loop increases with `+=`; a sentinel is a variable set to -1 before the loop
+        fnode = load.find(target)[1]
+        loop0 = sorted([n for n in ast.walk(fnode) if isinstance(n, ast.For)], key=lambda n: n.lineno)[0]
+        accs = [n.target.id for n in ast.walk(loop0) if isinstance(n, ast.AugAssign) and isinstance(n.op, ast.Add) and isinstance(n.target, ast.Name)]
+        sentinels = [t.id for n in fnode.body if isinstance(n, ast.Assign) and n.lineno < loop0.lineno and isinstance(n.value, ast.UnaryOp) and isinstance(n.value.op, ast.USub)
+                     and isinstance(n.value.operand, ast.Constant) and n.value.operand.value == 1 for t in n.targets if isinstance(t, ast.Name)]
+        if len(accs) != 1:
+            raise load.TargetMissing(f"{target}: cannot identify the running-length accumulator of the line loop ({accs})")
+
         def inv(e):
-            cum = e.st.locals["cumulative_length"].t
-            tli = e.st.locals["target_line_index"].t
+            cum = e.st.locals[accs[0]].t
             idx_t = index.t
-            return z3.And(cum == PSUM(seq, e.idx), tli == -1, idx_t >= cum)
+            return z3.And(cum == PSUM(seq, e.idx), idx_t >= cum, *[e.st.locals[sn].t == -1 for sn in sentinels if sn in e.st.locals])
         c.invariant(0, inv, elem=lambda st, term: VStr(U.s(term)))
         def post(r):
             line, col = r.value.items[0].t, r.value.items[1].t
